@@ -166,3 +166,153 @@ def targets():      # noqa: F811
     from . import diagrams, traversal
     # shared with C16: the identifier map the diagram routines look names up in is total on the circuit's elements
     return traversal.targets() + _targets_before_observers() + [purity.target_observers(["circuit/base", "circuit/series", "circuit/parallel", "circuit/circuit", "circuit/circuit_builder", "circuit/transmission_line_model"], "circuit observers keep no state")] + diagrams.targets()
+
+
+_targets_before_circuit_exports = targets
+
+
+def target_circuit_exports():
+    """`Circuit.to_sympy` is the expression of its top-level connection, asked with the caller's `substitute` flag and ONE identifier
+    map -- the circuit's own running numbering -- shared by every element (so two elements never get the same variable name and
+    each (element, parameter) gets one); anything that is not an expression is refused.  `Circuit.to_latex` is 'Z = ' followed by
+    the LaTeX form of exactly the unsubstituted expression.  Real methods on recording stand-ins (E3)."""
+    from pyvc import overload as O
+
+    def run(sess: Session):
+        class Expr:
+            def __init__(self, tag):
+                self.tag = tag
+        for substitute in (False, True):
+            asked = []
+
+            class Top:
+                def to_sympy(self, substitute=False, identifiers=None):
+                    asked.append((substitute, identifiers))
+                    return Expr("top")
+            ids_calls = []
+
+            class Me:
+                _elements = Top()
+
+                def generate_element_identifiers(self, running=False):
+                    ids_calls.append(running)
+                    return {"the map": running}
+            ns = {"Expr": Expr, "isinstance": isinstance, "_is_boolean": lambda x: isinstance(x, bool)}
+            O.load("circuit/circuit", ["Circuit.to_sympy"], ns)
+            out = ns["to_sympy"](Me(), substitute=substitute)
+            ok = isinstance(out, Expr) and out.tag == "top" and asked == [(substitute, {"the map": True})] and ids_calls == [True]
+            ob = sess.check("post", [], z3.BoolVal(ok), 0, label=f"Circuit.to_sympy[substitute={substitute}] is the top-level connection's expression with the caller's flag and the circuit's running identifier map")
+            if not ok:
+                ob.detail = f"asked {asked!r}, identifier maps requested {ids_calls!r}"
+        Top.to_sympy = lambda self, substitute=False, identifiers=None: "not an expression"
+        try:
+            ns["to_sympy"](Me(), substitute=False)
+            refused = False
+        except TypeError:
+            refused = True
+        sess.check("post", [], z3.BoolVal(refused), 0, label="Circuit.to_sympy refuses a result that is not an expression")
+        calls = []
+
+        class Me2:
+            def to_sympy(self, substitute=False):
+                calls.append(substitute)
+                return "EXPR"
+        ns = {"latex": lambda e: f"latex({e})"}
+        O.load("circuit/circuit", ["Circuit.to_latex"], ns)
+        out = ns["to_latex"](Me2())
+        sess.check("post", [], z3.BoolVal(out == "Z = latex(EXPR)" and calls == [False]), 0, label="Circuit.to_latex is 'Z = ' + latex(to_sympy(substitute=False))")
+    return ("circuit/circuit:Circuit.to_sympy / to_latex", "circuit/circuit", "Circuit.to_sympy", run)
+
+
+def targets():      # noqa: F811
+    return _targets_before_circuit_exports() + [target_circuit_exports()]
+
+
+_targets_before_container_sympy = targets
+
+
+def target_container_to_sympy():
+    """`Container.to_sympy` (transmission-line models and other elements with sub-circuits): every parameter key is substituted --
+    by its value ('oo'/'-oo' for infinities) with substitute=True, otherwise by '<key>_<label>' or '<key>_<identifier of THIS
+    element in the shared map>' -- and every sub-circuit key by that sub-circuit's own expression asked with the SAME substitute
+    flag and the SAME identifier map (open sub-circuits by 'oo'); `_sympy` is handed the same flag, map, values and sub-circuits.
+    So the variables of elements inside sub-circuits are numbered in the same map as the rest of the circuit.  Real method on
+    recording stand-ins with uninterpreted values (E3), all branch decisions enumerated."""
+    from pyvc import overload as O
+
+    def run(sess: Session):
+        n = 0
+        for substitute, label, given in itertools.product((False, True), ("", "lbl"), (False, True)):
+            def once():
+                vals = {"L": T.var("value[L]"), "R_i": T.var("value[R_i]")}
+                log = {"subs": None, "_sympy": None, "asked": []}
+
+                class Sub:
+                    def __init__(self, tag):
+                        self.tag = tag
+
+                    def to_sympy(self, substitute=False, identifiers=None):
+                        log["asked"].append((self.tag, substitute, identifiers))
+                        return f"expr({self.tag})"
+                subs_ = {"X_1": Sub("X_1"), "Z_B": None}
+
+                class Expr:
+                    def subs(self, d):
+                        log["subs"] = dict(d)
+                        return "RESULT"
+
+                class Me:
+                    _label = label
+
+                    def get_values(self):
+                        return vals
+
+                    def get_subcircuits(self):
+                        return subs_
+
+                    def generate_element_identifiers(self, running=False):
+                        log["generated"] = running
+                        return IDS
+
+                    def _sympy(self, **kw):
+                        log["_sympy"] = kw
+                        return Expr()
+                me = Me()
+                IDS = {me: 4}
+                ns = {"_is_boolean": lambda x: isinstance(x, bool), "isposinf": DF.opaque("isposinf"), "isneginf": DF.opaque("isneginf"), "isinstance": isinstance}
+                O.load(BASE, ["Container.to_sympy"], ns)
+                out = ns["to_sympy"](me, substitute=substitute, identifiers=(IDS if given else None))
+                return out, log, vals, subs_, IDS
+            for dec, (out, log, vals, subs_, IDS), facts in DF.explore(once):
+                n += 1
+                tag = f"[substitute={substitute}, label={label!r}, map {'given' if given else 'generated'}, {','.join(f'{w}={v}' for w, v in dec)}]"
+                sess.check("post", [], z3.BoolVal(out == "RESULT" and isinstance(log["subs"], dict) and sorted(log["subs"]) == ["L", "R_i", "X_1", "Z_B"]), 0,
+                           label=f"every parameter and every sub-circuit key is substituted, and nothing else{tag}")
+                if not isinstance(log["subs"], dict):
+                    continue
+                sess.check("post", [], z3.BoolVal(given or log.get("generated") is False), 0, label=f"without a map the element numbers itself with generate_element_identifiers(running=False){tag}")
+                sess.check("post", [], z3.BoolVal(log["asked"] == [("X_1", substitute, IDS)] and log["subs"].get("X_1") == "expr(X_1)" and log["subs"].get("Z_B") == "oo"), 0,
+                           label=f"a sub-circuit is replaced by its own expression asked with the same flag and the same identifier map; an open one by oo{tag}")
+                kw = log["_sympy"] or {}
+                sess.check("post", [], z3.BoolVal(kw.get("substitute") is substitute and kw.get("identifiers") is IDS and kw.get("values") is vals and kw.get("subcircuits") is subs_), 0,
+                           label=f"_sympy gets the same flag, map, values and sub-circuits{tag}")
+                for key in ("L", "R_i"):
+                    got = log["subs"].get(key)
+                    if not substitute:
+                        want = f"{key}_lbl" if label else f"{key}_4"
+                        sess.check("post", [], z3.BoolVal(got == want), 0, label=f"{key} is renamed '<key>_<label>' / '<key>_<identifier of this element>'{tag}")
+                    else:
+                        pos = [v for w, v in dec if "isposinf" in str(getattr(w, "key", w)) and f"value[{key}]" in str(getattr(w, "key", w))]
+                        neg = [v for w, v in dec if "isneginf" in str(getattr(w, "key", w)) and f"value[{key}]" in str(getattr(w, "key", w))]
+                        if pos and pos[0]:
+                            sess.check("post", [], z3.BoolVal(got == "oo"), 0, label=f"{key} = +inf is substituted by oo{tag}")
+                        elif neg and neg[0]:
+                            sess.check("post", [], z3.BoolVal(got == "-oo"), 0, label=f"{key} = -inf is substituted by -oo{tag}")
+                        else:
+                            DF.eq_check(sess, f"{key} is substituted by its value{tag}", got, vals[key])
+        sess.check("cover", [], z3.BoolVal(n >= 8), 0, label=f"paths executed: {n}")
+    return (f"{BASE}:Container.to_sympy", BASE, "Container.to_sympy", run)
+
+
+def targets():      # noqa: F811
+    return _targets_before_container_sympy() + [target_container_to_sympy()]
